@@ -38,3 +38,8 @@ register("C16", ["c16"],
          "Static guard tables and who-may-call facts: the selection function's full 12-row table (sender, kind, view order) is enumerated on its MIR; the filter term is verify().is_ok(); the prunable channel's send is decided structurally (filtered values never reach the buffer, retain/keep tables, append iff keep, only retain/push_back/pop_front mutate the VecDeque => FIFO among retained); in the replica, cache insertions for commit and timeout votes are admitted only under membership/view/newer-than-last-vote/valid-signature/valid-message (144 valuations each), pruning to active views post-dominates insertion and a formed certificate is removed. The numeric size bound follows from these facts by the argument in DESIGN.md, not computed by the tool.",
          ["tokio watch::send_modify runs the closure under the watch lock"],
          TRUSTED)
+
+register("C12", ["c12"],
+         "Static guard tables, term checks, dominance and who-may-call facts: the four handshake functions are enumerated over genesis/session/signature/(peer) atoms and Ok must be reachable in exactly the all-true row; the session id compared and signed is SessionId(encode(id(<the stream parameter>))) and Stream.id is the noise handshake hash; the identity returned is the key of the very signature that verified; in the four stream runners insert is dominated by handshake success, serving and remove are dominated by insert success, remove post-dominates on normal completion with the same key; the pool's insert/remove closures are enumerated as tables; pool construction terms and the callers of rpc::Service::run are exact sets. Unforgeability of signatures and secrecy of the noise session are cryptographic assumptions.",
+         ["ed25519/BLS signature unforgeability and the noise handshake hash binding (snow) hold", "tokio watch runs the guarded closures under its lock"],
+         TRUSTED)
